@@ -177,7 +177,25 @@ def check_one(desc, tier, acc):
             acc.violations.append(Violation("%s/any-extraction/source-changed-full-observation" % desc["kind"],
                                             "full observation of the source changed after the extractions: %s" % (C.show(desc),),
                                             dict(base, detour=detour, sel="ALL"), size=len(desc["edges"])))
+        # extraction from an object whose hypergraph-level metadata dict was REPLACED by the user (no reserved keys in it)
+        for cls2 in ("get_edges-subhypergraph",):
+            g = C.build(desc, detour=detour)
+            g.set_hypergraph_metadata({"owner": "me"})
+            acc.evaluations += 1
+            try:
+                g.get_edges(subhypergraph=True)
+                g.get_edges(subhypergraph=True, keep_isolated_nodes=True)
+                if desc["kind"] == "H":
+                    g.subhypergraph(list(desc["nodes"]))
+                    g.subhypergraph_by_orders(orders=[1])
+            except Exception:
+                pass
+            if q(lambda: g.get_hypergraph_metadata()) != {"owner": "me"}:
+                acc.violations.append(Violation("%s/%s/source-hypergraph-metadata-changed" % (desc["kind"], cls2),
+                                                "an extraction rewrote the source's hypergraph metadata: %r (was {'owner': 'me'}); %s" % (q(lambda: g.get_hypergraph_metadata()), C.show(desc)),
+                                                dict(base, detour=detour, sel="replaced-hypergraph-metadata"), size=len(desc["edges"])))
         # copy
+        full_spec = spec if spec is not None else DirectedSpec(tuple(desc["nodes"]) or (1,), "absent-node", [tuple(e) for e in desc["edges"]])
         acc.evaluations += 1
         c = h.copy()
         if hview(c, disp) != v0 or q(lambda: cmd(c.get_hypergraph_metadata())) != hm0 or type(c) is not type(h):
@@ -189,12 +207,13 @@ def check_one(desc, tier, acc):
                 a = C.build(desc, detour=detour)
                 b = a.copy()
                 tgt, other = (b, a) if side == "copy" else (a, b)
+                full_before = full_spec.observe(other)  # the whole query surface, incidences and degrees included
                 try:
                     op(tgt)
                 except Exception as e:
                     acc.count("copy-mutation-rejected")
                     continue
-                if hview(other, disp) != v0 or q(lambda: cmd(other.get_hypergraph_metadata())) != hm0:
+                if hview(other, disp) != v0 or q(lambda: cmd(other.get_hypergraph_metadata())) != hm0 or full_spec.observe(other) != full_before:
                     acc.violations.append(Violation(
                         "%s/copy/aliasing/%s-on-%s" % (desc["kind"], oname, side),
                         "%s applied to the %s changed the other object (%s)" % (oname, side, C.show(desc)),
